@@ -45,14 +45,44 @@ def mk_configuration(model, cfg, fct=None, ports_cfg=None):
                          else FacilitiesOrigin.IMPORT,
                          copyright=cfg.get('copyright', '(c)'),
                          support_files_ns_prefix=prefix,
-                         creator_info=cfg.get('creator'))
+                         creator_info=cfg.get('creator'),
+                         verbose=bool(cfg.get('verbose', False)))
+
+
+class VerboseChangesOutcome(Exception):
+    """The `verbose` flag of the configuration changed the outcome of a build (it may only add log output)."""
+
+
+def _build_once(model, cfg, verbose, fct=None):
+    from dznpy.adv_shell import Builder  # pylint: disable=import-outside-toplevel
+    with contextlib.redirect_stdout(io.StringIO()):
+        res = Builder().build(mk_configuration(model, dict(cfg, verbose=verbose), fct))
+    return [(f.filename, f.contents, f.hash) for f in res.files]
 
 
 def build(model, cfg):
-    """Returns the list of (filename, contents, hash)."""
-    from dznpy.adv_shell import Builder  # pylint: disable=import-outside-toplevel
-    res = Builder().build(mk_configuration(model, cfg))
-    return [(f.filename, f.contents, f.hash) for f in res.files]
+    """Returns the list of (filename, contents, hash). Unless the description fixes `verbose`, the build is done
+    twice - without and with verbose logging - and both must end the same way (same files / same exception type)."""
+    if 'verbose' in cfg:
+        return _build_once(model, cfg, bool(cfg['verbose']))
+    outcomes = []
+    try:
+        fct = parse_model(model)        # parsed once, shared by both builds (a build does not alter its model: C12)
+    except Exception:  # pylint: disable=broad-except
+        fct = None
+    for verbose in (False, True):
+        try:
+            outcomes.append(('OK', _build_once(model, cfg, verbose, fct)))
+        except Exception as exc:  # pylint: disable=broad-except
+            outcomes.append(('EXC', exc))
+    (k0, v0), (k1, v1) = outcomes
+    if k0 != k1 or (k0 == 'OK' and v0 != v1) or (k0 == 'EXC' and type(v0) is not type(v1)):
+        def show(kind, val):
+            return 'files ' + str([f[0] for f in val]) if kind == 'OK' else f'{type(val).__name__}: {val}'
+        raise VerboseChangesOutcome(f'verbose=False -> {show(k0, v0)} ; verbose=True -> {show(k1, v1)}')
+    if k0 == 'EXC':
+        raise v0
+    return v0
 
 
 def library_error_types():
